@@ -55,6 +55,8 @@ class Harness(object):
         self.batches = {}
         self.sv = {}
         self.max_events = cfg.get("max_events", 200000)
+        self.njunk = 0
+        self.JUNK = [12345, 0, "", False, 0.0, "x", frozenset(), 7.5]
         H = self
 
         class HBatch(batching.BatchBase):
@@ -102,6 +104,12 @@ class Harness(object):
         class HCtx(contexts.AsyncContext):
             def __init__(self, cid):
                 self.cid = cid
+
+            def __exit__(self, ty, value, tb):
+                try:
+                    return contexts.AsyncContext.__exit__(self, ty, value, tb)
+                finally:
+                    H.emit(["ctxX", self.cid])
 
             def resume(self):
                 H.emit(["ctx", "R", self.cid])
@@ -204,7 +212,7 @@ class Harness(object):
         else:
             ev = ["new", n] + (kind if isinstance(kind, list) else [kind])
         self.emit(ev)
-        if kind not in ("const", "errfut"):
+        if not (isinstance(kind, list) and kind[0] in ("const", "errfut")):
             obj.on_computed.subscribe(lambda f, n=n: self.emit(["done", n, self.outcome_of(f)]))
         return n
 
@@ -213,26 +221,32 @@ class Harness(object):
         return st["own"][r[1]] if r[0] == "own" else st["inh"][r[1]]
 
     def build(self, st, y, leaves):
+        """returns (python object to yield, the same structure with future numbers)"""
         if y == "none":
-            return None
+            return None, "none"
         if y == "junk":
-            return 12345
+            self.njunk += 1
+            return self.JUNK[self.njunk % len(self.JUNK)], "junk"
         tag = y[0]
         if tag == "f":
             f = self.resolve(st, y[1])
             leaves.append(f)
-            return f
-        if tag == "tup":
-            return tuple(self.build(st, x, leaves) for x in y[1:])
-        if tag == "lst":
-            return [self.build(st, x, leaves) for x in y[1:]]
+            return f, ["f", self.fid(f)]
+        if tag in ("tup", "lst"):
+            parts = [self.build(st, x, leaves) for x in y[1:]]
+            objs = [p[0] for p in parts]
+            return (tuple(objs) if tag == "tup" else objs), [tag] + [p[1] for p in parts]
         if tag == "dict":
-            return {k: self.build(st, x, leaves) for k, x in y[1:]}
+            parts = [(k, self.build(st, x, leaves)) for k, x in y[1:]]
+            return {k: p[0] for k, p in parts}, ["dict"] + [[k, p[1]] for k, p in parts]
         raise ValueError(y)
 
-    def make_ctx(self, c):
+    def make_ctx(self, c, me):
         cid = self.nctx
         self.nctx += 1
+        if c[0] == "override":
+            self.get_sv(c[1])
+        self.emit(["ctxN", cid, me, c])
         if c[0] == "plain":
             obj = self.HCtx(cid)
         elif c[0] == "nonasync":
@@ -251,6 +265,12 @@ class Harness(object):
                     def pause(self):
                         H.emit(["ctx", "P", self.cid])
                         base.pause(self)
+
+                    def __exit__(self, ty, value, tb):
+                        try:
+                            return base.__exit__(self, ty, value, tb)
+                        finally:
+                            H.emit(["ctxX", self.cid])
 
                 self._override_cls = LoggedOverride
             obj = self._override_cls(sv, c[2])
@@ -301,17 +321,17 @@ class Harness(object):
                 body = body[3]
             elif op == "item":
                 it = self.HItem(body[1], body[2], body[3])
-                self.reg(it, ["item", body[1], it.batch.seq, it.index])
+                self.reg(it, ["item", body[1], it.batch.seq, it.index, body[2], body[3]])
                 st["own"].append(it)
                 body = body[4]
             elif op == "const":
                 f = self.futures.ConstFuture(body[1])
-                self.reg(f, "const")
+                self.reg(f, ["const", body[1]])
                 st["own"].append(f)
                 body = body[2]
             elif op == "errfut":
                 f = self.futures.ErrorFuture(self.get_err(body[1]))
-                self.reg(f, "errfut")
+                self.reg(f, ["errfut", body[1]])
                 st["own"].append(f)
                 body = body[2]
             elif op == "lazy":
@@ -325,20 +345,26 @@ class Harness(object):
                 self.reg(f, "lazy")
                 st["own"].append(f)
                 body = body[2]
-            elif op == "yld":
-                leaves = []
-                y = self.build(st, body[1], leaves)
-                self.emit(["yield", me, st["resumes"], [self.fid(f) for f in leaves]])
+            elif op in ("yld", "reyld"):
+                if op == "yld":
+                    leaves = []
+                    y, ry = self.build(st, body[1], leaves)
+                    st["lasty"] = (y, ry, leaves)
+                    kk, hh = body[2], body[3]
+                else:
+                    y, ry, leaves = st.get("lasty", (None, "none", []))
+                    kk, hh = body[1], body[2]
+                self.emit(["yield", me, st["resumes"], ry])
                 try:
                     v = yield y
                 except Exception as e:
                     recv = ["err", self.etok(e)]
                     st["caught"] = e
-                    body = body[3]
+                    body = hh
                 else:
                     recv = ["ok", self.vtok(v)]
                     st["env"].append(v)
-                    body = body[2]
+                    body = kk
                 st["resumes"] += 1
                 dc = 1 if all(f.is_computed() for f in leaves) else 0
                 self.emit(["run", me, st["resumes"], dc, recv])
@@ -370,7 +396,7 @@ class Harness(object):
                     st["env"].append(v)
                     body = body[2]
             elif op == "with":
-                c = self.make_ctx(body[1])
+                c = self.make_ctx(body[1], me)
                 with c:
                     r = yield from self.block(st, body[2])
                 if r[0] == "ret":
@@ -407,7 +433,8 @@ class Harness(object):
         self.emit(["ret", out])
         sched2 = asynq.scheduler.get_scheduler()
         act = sched2.active_task
-        self.emit(["sched", 1 if sched2 is sched else 0, len(sched2._tasks), len(sched2._batches),
+        nlive = len([b for b in sched2._batches if b.items and not b.is_flushed()])
+        self.emit(["sched", 1 if sched2 is sched else 0, len(sched2._tasks), len(sched2._batches), nlive,
                    "none" if act is None else self.fid(act)])
         self.emit(["svals"] + [[k, self.vtok(sv.get())] for k, sv in sorted(self.sv.items())])
 
